@@ -1182,7 +1182,8 @@ class NestedPipeFunc(PipeFunc):
     def _all_inputs(self) -> tuple[str, ...]:
         inputs: set[str] = set()
         for f in self.pipeline.functions:
-            inputs.update(f.parameters)
+            # A bound parameter gets its value from the inner function, it is no input
+            inputs.update(p for p in f.parameters if p not in f._bound)
         return tuple(sorted(inputs))
 
     @functools.cached_property
